@@ -178,12 +178,4 @@ proc_frame pqPutLoop : (pqPutLoop w p k obj pri v).1 ~ w keeps prio status waite
   by (unfold pqPutLoop; zeta; frame_close)
 end
 
-/-! ### conditions -/
-
-section
-variable (w : World) (g : Nat)
-world_frame condSignal : (condSignal w g).1 ~ w keeps evWaiters procs res pools bufs oqs pqs conds flags gvars now
-  by (unfold condSignal; zeta; frame_close)
-end
-
 end CimbaModel.Sim
